@@ -14,7 +14,7 @@ from .c01 import situation
 LEVEL = "other"
 
 
-def build(src):
+def build(src, partial=None):
     from xdsl.parser import Parser
 
     from snaxc.transforms.convert_linalg_to_accfg import TraceStatesPass
@@ -22,6 +22,21 @@ def build(src):
     ctx = xshim.make_ctx()
     m = Parser(ctx, src).parse_module()
     TraceStatesPass().apply(ctx, m)
+    if partial is not None:
+        # pre-existing, partially threaded state: keep the (valid) links of the first tracing on some setups only,
+        # strip them from the others, and trace again
+        import random as _random
+
+        from xdsl.rewriter import Rewriter
+
+        from snaxc.dialects import accfg
+
+        rnd = _random.Random(partial)
+        for op in [o for o in m.walk() if isinstance(o, accfg.SetupOp) and o.in_state is not None]:
+            if rnd.random() < 0.5:
+                new = accfg.SetupOp(op.values, op.param_names, op.accelerator, None)
+                Rewriter.replace_op(op, new)
+        TraceStatesPass().apply(ctx, m)
     return m
 
 
@@ -63,9 +78,12 @@ def check_states(m, K, W):
 
 
 def case_prog(prog, K=2, W=32):
+    partial = None
+    if prog and prog[0] == "partially_threaded":
+        _, partial, prog = prog
     src = ac.render(prog)
     try:
-        m = build(src)
+        m = build(src, partial)
     except Exception as e:
         return dict(rejected=f"{type(e).__name__}: {str(e)[:80]}", case=str(prog)[:300])
 
@@ -74,7 +92,7 @@ def case_prog(prog, K=2, W=32):
 
     def replay(f):
         def again():
-            check_states(build(src), max(K, 4), W)
+            check_states(build(src, partial), max(K, 4), W)
         ok, d = replay_pinned(again, f)
         d["program"] = src
         d["situation"] = situation(prog)
@@ -105,5 +123,11 @@ def run(chk):
     chk.assumptions = ["as C01: step > 0, bounds in [0,4096), K-bounded unrolling, un-annotated calls clobber all registers",
                        "programs on which the real pass raises or does not terminate are tallied as rejected"]
     chk.add_results("infer_state_vs_machine", pmap(case_prog, progs, kw=dict(K=K), chunks=4))
+    # pre-existing partially threaded state: every third program, traced, partially un-threaded, traced again
+    import random as _random
+
+    rnd = _random.Random(chk.seed)
+    pt = [("partially_threaded", rnd.randrange(1 << 30), p) for i, p in enumerate(progs) if i % 3 == 0 and ac.count_cfg(p) >= 2]
+    chk.add_results("partially_threaded_input", pmap(case_prog, pt, kw=dict(K=K), chunks=4))
     chk.bounds = dict(programs=len(progs), exhaustive_part=n_exh, unroll_K=K)
-    chk.outside = ["pre-threaded partial state chains in the input", "region ops other than scf.for/scf.if", f"more than {K} iterations"]
+    chk.outside = ["pre-threaded links that were already wrong in the input (only valid partial threading is generated)", "region ops other than scf.for/scf.if", f"more than {K} iterations"]
